@@ -212,17 +212,37 @@ local function _lua_set_timeout(timeout)
         _lua_current_max_time = _lua_max_time
     end
     local start_time = os.time()
-    local function hook()
+    -- The hook runs every 1000 VM instructions.  A call of a library function
+    -- is one instruction however long it takes, so a loop over expensive
+    -- library calls would be checked very rarely: when 1000 instructions take
+    -- long, the hook also runs at every call until the code gets fast again.
+    local per_call = false
+    local last_clock = os.clock()
+    local function hook(event)
         if os.time() > start_time + _lua_current_max_time then
-            if not _lua_timed_out then
-                _lua_timed_out = true
-                -- check again soon: the error may be caught on its way up
+            -- (the error may be caught on its way up: the hook stays armed,
+            -- but not for calls, which include those of the clean-up code)
+            _lua_timed_out = true
+            if per_call then
+                per_call = false
                 debug.sethook(hook, "", 1000)
             end
             error("Lua timeout error")
         end
+        if event == "count" then
+            local now = os.clock()
+            local dt = now - last_clock
+            last_clock = now
+            if not per_call and dt > 0.05 then
+                per_call = true
+                debug.sethook(hook, "c", 1000)
+            elseif per_call and dt < 0.005 then
+                per_call = false
+                debug.sethook(hook, "", 1000)
+            end
+        end
     end
-    debug.sethook(hook, "", 100000)
+    debug.sethook(hook, "", 1000)
 end
 
 local function _lua_clear_timeout_hook()
